@@ -69,7 +69,7 @@ def run(ctx):
         o = prim.origin_of_operand(pf, t.args[0])
         # `it` is a named local defined by into_iter(walkdir)
         names = [x.a.get("name") for x in o.walk() if x.k == "var"]
-        ctx.ob("R1", "walk-iterator", names == ["it"] or any(c.endswith("into_iter") for c in o.callees()), "walk loop iterates %s" % o.fmt(), fn=pf, where=prim.site(pf, b), nontrivial=False)
+        ctx.ob("R1", "walk-iterator", (len(names) == 1 and pf.local_ty([x.a["local"] for x in o.walk() if x.k == "var"][0]) == "walkdir::IntoIter") or any(c.endswith("into_iter") for c in o.callees()), "walk loop iterates %s" % o.fmt(), fn=pf, where=prim.site(pf, b), nontrivial=False)
     # -sorted: sort_by installed under sorted_output, comparing file names in (a, b) order
     sb = [(b, t) for b, t in pf.calls() if (t.callee or "").startswith("walkdir::WalkDir::sort_by")]
     ctx.ob("R1", "sort_by-site", len(sb) == 1 and sb[0][1].callee == "walkdir::WalkDir::sort_by",
@@ -144,7 +144,7 @@ def run(ctx):
         ok = bool(nexts) and all(prim.must_pass(pf, nb, [b], news) for nb in nexts)
         ctx.ob("R2", "fresh-io-per-entry", ok, "every path from fetching an entry to evaluating it must create a fresh MatcherIO (prune/quit flags must not leak to siblings)", fn=pf, where=prim.site(pf, b), how="must-pass")
         o = prim.origin_of_operand(pf, t.args[2])
-        ok2 = any(x.k == "var" and x.a.get("name") == "matcher_io" for x in o.walk()) or any(c.endswith("MatcherIO::<'_>::new") for c in o.callees())
+        ok2 = any(x.k == "var" and "MatcherIO" in pf.local_ty(x.a["local"]) for x in o.walk()) or any(c.endswith("MatcherIO::<'_>::new") for c in o.callees())
         ctx.ob("R2", "matches-uses-that-io", ok2, "matches receives %s" % o.fmt(), fn=pf, where=prim.site(pf, b), nontrivial=False)
 
     # ---- R3 skip iff marked ---------------------------------------------------------------------
